@@ -1558,6 +1558,14 @@ def search(ctx):
             break
     # 3. bonds: two-atom patterns, documented meaning of the bond token
     bond_search(ctx, t_end, texts)
+    # 3a. chains of documented atoms and bond tokens: accepted, maps kept, numbers distinct
+    for t, rad in ([(x, []) for x in texts] + chain_strings(ctx)):
+        if time.time() > t_end:
+            break
+        bad = check_chain(t)
+        if bad:
+            ctx.fail('C08/documented-chain-misread', bad, {'kind': 'chain', 'smarts': t})
+            break
     # 3b. cis/trans marks: a query with direction marks matches exactly the molecules of the same configuration
     for bad in check_cistrans():
         ctx.fail('C08/cis-trans-mark-misread', bad[1], {'kind': 'cistrans', 'smarts': bad[0][0], 'smiles': bad[0][1]})
@@ -1661,6 +1669,44 @@ def check_cistrans():
                                                   f'get_mapping says {"match" if got else "no match"}'))
     return bad
 
+
+
+def check_chain(text):
+    """a chain of documented bracket atoms joined by documented bond tokens must be accepted; mapped atoms keep their map as atom
+    number, all numbers are distinct, one bond per non-dot junction. Returns None (fine / not in the documented subset) or text."""
+    import re
+    from chython import smarts
+    body = text.split()[0]
+    atoms = re.findall(r'\[([^\]]*)\]', body)
+    toks = re.split(r'\[[^\]]*\]', body)
+    if not atoms or toks[0] or toks[-1] or len(toks) != len(atoms) + 1:
+        return None
+    docs = [doc_parse_atom(a) for a in atoms]
+    if any(d is None for d in docs):
+        return None
+    ok_tok = set(BOND_DOC) | {'.', '/', '\\'} | {b + r for b in BOND_DOC if b for r in (';@', ';!@')}
+    if any(t not in ok_tok for t in toks[1:-1]):
+        return None
+    maps = [d['mapping'] for d in docs if d['mapping'] is not None]
+    if len(set(maps)) != len(maps) or ' ' in text.strip():
+        return None
+    if any(d['head'] == 'metal' and (d['stereo'] is not None) for d in docs):
+        return None
+    # a cis/trans mark next to a bond list is fine; two direction marks on one junction cannot happen (one token per junction)
+    try:
+        q = smarts(body)
+    except Exception as e:
+        return f'{body}: documented chain rejected: {type(e).__name__}: {e}'
+    nums = list(q._atoms)
+    if len(nums) != len(atoms) or len(set(nums)) != len(nums):
+        return f'{body}: {len(atoms)} atoms written, numbers {nums}'
+    for d in docs:
+        if d['mapping'] is not None and d['mapping'] not in q._atoms:
+            return f'{body}: map {d["mapping"]} is not an atom number ({nums})'
+    nb = sum(1 for t in toks[1:-1] if t != '.')
+    if len(list(q.bonds())) != nb:
+        return f'{body}: {nb} bonds written, {len(list(q.bonds()))} built'
+    return None
 
 def bond_search(ctx, t_end, texts):
     import time
@@ -1807,6 +1853,9 @@ def probe(inp):
             if got != exp:
                 return True, f'atom {n}: labels (neighbors, heteroatoms, hybridization, in_ring) {got}, independent computation {exp}'
         return False, 'labels agree with the independent computation'
+    if kind == 'chain':
+        bad = check_chain(inp['smarts'])
+        return bool(bad), bad or f'{inp["smarts"]}: accepted with its maps and one bond per junction (or outside the documented subset)'
     if kind == 'skeleton':
         try:
             bad = skeleton_case(inp['smarts'])
